@@ -221,3 +221,76 @@ def byte_twins(rng, n):
     a = rng.integers(1, 9, size=m).astype(np.int32)
     a[1::2] = 0                                                # int32 [1,0,2,0,..] read as int64 is [1,2,..] (little endian)
     return a, a.view(np.int64).copy()
+
+
+def _scribble(res):
+    """the caller overwrites in place whatever fresh arrays a function handed out"""
+    items = res if isinstance(res, (tuple, list)) else [res]
+    for r in items:
+        if isinstance(r, np.ndarray) and r.flags.writeable and r.size:
+            try:
+                if r.dtype.kind in "fc":
+                    r *= -3.0
+                    r += 1.0
+                elif r.dtype.kind in "iu":
+                    r //= 2
+            except Exception:
+                pass
+
+
+def array_noise(rng, x, k=None):
+    """Other public array-level functions of the library called on the SAME record just before a measured call, their results
+    overwritten by the caller: every function is a function of its own arguments, whatever was computed before (a memo shared
+    between functions, or handed out by reference, shows up in the measured call).  Never changes x."""
+    import warnings
+    from eqsig.fns import peaks_and_crossings as pc
+    from eqsig import im, stockwell
+    x = x if isinstance(x, (list, tuple)) else np.asarray(x)
+    calls = [lambda: pc.determine_peaks_only_delta_series(x), lambda: pc.determine_pseudo_cyclic_peak_only_series(x),
+             lambda: pc.get_zero_crossings_array_indices(x), lambda: pc.get_switched_peak_array_indices(x),
+             lambda: pc.get_peak_array_indices(x), lambda: pc.get_peak_array_indices(x, ptype="max"), lambda: pc.clean_out_non_changing(np.asarray(x, dtype=float)),
+             lambda: im.calc_n_cyc_array_w_power_law(x, max(1e-300, float(np.max(np.abs(np.asarray(x, dtype=float))))) * 0.7, 0.5),
+             lambda: im.calc_cyc_amp_array_w_power_law(x, 4.0, 0.3), lambda: pc.get_n_cyc_array(x),
+             lambda: stockwell.generate_gaussian(max(1, len(x) // 2)), lambda: im.calc_sig_dur_vals(np.asarray(x, dtype=float), 0.01)]
+    n = int(rng.integers(1, 4)) if k is None else k
+    with warnings.catch_warnings():
+        warnings.simplefilter("ignore")
+        for _ in range(n):
+            try:
+                with np.errstate(all="ignore"):
+                    _scribble(calls[int(rng.integers(len(calls)))]())
+            except Exception:
+                pass
+
+
+def asig_noise(rng, s, rule_switch=False, k=None):
+    """Other public functions of the library applied to the SAME AccSignal just before a measured call (reads of derived
+    quantities, intensity measures, durations, detectors, spectra, resampling, the Stockwell trace), fresh results overwritten by
+    the caller.  None of them changes the record; with rule_switch the velocity series may be regenerated with the rectangle
+    rule (only for measured calls that are functions of the record, not reads of the velocity)."""
+    import warnings
+    from eqsig import im, sdof, stockwell
+    from eqsig.fns import peaks_and_crossings as pc
+    from eqsig.fns import time_step as tp
+    pk = float(np.max(np.abs(np.asarray(s.values, dtype=float)))) if len(s.values) else 0.0
+    calls = [lambda: im.calc_sig_dur(s, im=im.calc_cav), lambda: im.calc_sig_dur(s), lambda: im.calc_sig_dur(s, im=im.calc_arias_intensity),
+             lambda: im.calc_brac_dur(s, 0.3 * pk), lambda: im.calc_arias_intensity(s), lambda: im.calc_cav(s), lambda: im.calc_isv(s),
+             lambda: im.calc_integral_of_abs_velocity(s), lambda: s.pga, lambda: s.pgv, lambda: s.velocity[-1], lambda: s.displacement[-1],
+             lambda: s.fa_spectrum[0], lambda: s.smooth_fa_spectrum[0], lambda: s.s_a[0], lambda: s.s_d[-1], lambda: s.time[-1],
+             lambda: pc.get_peak_indices(s), lambda: pc.get_zero_crossings_indices(s), lambda: pc.get_switched_peak_indices(s),
+             lambda: stockwell.get_max_stockwell_freq(s) if 4 <= s.npts <= 256 else None,
+             lambda: tp.interp_to_approx_dt(s, s.dt / 2.0).values, lambda: sdof.pseudo_response_spectra(s.values, s.dt, np.array([0.3, 1.0]), 0.05),
+             lambda: s.generate_cumulative_stats(), lambda: im.calc_max_velocity_period(s) if hasattr(im, "calc_max_velocity_period") else None]
+    if rule_switch:
+        calls += [lambda: s.generate_displacement_and_velocity_series(trap=False)] * 3
+    n = int(rng.integers(1, 4)) if k is None else k
+    with warnings.catch_warnings():
+        warnings.simplefilter("ignore")
+        for _ in range(n):
+            try:
+                with np.errstate(all="ignore"):
+                    r = calls[int(rng.integers(len(calls)))]()
+                if isinstance(r, (tuple, list)) or (isinstance(r, np.ndarray) and r.base is None):
+                    pass          # (arrays handed out by the object's properties are its own: not overwritten here)
+            except Exception:
+                pass
